@@ -12,5 +12,6 @@ CONSTANTS
   Timer = FALSE
   EmitMode = "final"
   Record = TRUE
+  Eager = TRUE
 INVARIANTS TypeOK PerSeriesOrder NoDup NoDropLeak Conservation ShardFifo Complete EmitFinal
 CHECK_DEADLOCK FALSE
